@@ -20,6 +20,7 @@
     evaluate another; decided instance `C10Win_tail_variants_refuted`.
 -/
 import ScionTime.Model.ClientFlow
+import ScionTime.Gen.Client
 import ScionTime.Props.C10
 namespace ScionTime.Props.C10Win
 open ScionTime.ClientFlow
@@ -144,5 +145,13 @@ theorem C10Win_tail_variants_refuted :
 
 /-- a length field larger than the datagram is refused by the layer check (nothing is sliced) -/
 example : lengthAdmitted ⟨[70, 71], [0, 7, 0, 9, 0, 40, 0, 0, 1, 2, 3, 4]⟩ = false := by decide
+
+/-- **Pin** (regenerated from client_scion.go on every run): the byte strings handed to
+    `ntp.DecodePacket`, `nts.DecodePacket`, `nts.ProcessResponse` are all `udpLayer.Payload`, and the
+    response's packet authenticator is computed over the UDP header followed by it (`windows`). -/
+theorem C10Win_pin_windows :
+    Gen.Client.scionPayloadWindows =
+      "spao=buffer.Bytes() | spao=udpLayer.Contents[:len(udpLayer.Contents)+len(udpLayer.Payload)] | ntp=udpLayer.Payload | nts.decode=udpLayer.Payload | nts.process=udpLayer.Payload" := by
+  rfl
 
 end ScionTime.Props.C10Win
